@@ -308,16 +308,116 @@ theorem future_completes_once_immediate (c : Cons) (fut tx : Nat) (rs : St) (pre
     (hpre : ∀ e ∈ pre, e.foreign fut tx = true) (hpost : ∀ e ∈ post, e.foreign fut tx = true)
     (hwin : ((allParts pre).dropWhile (other tx)).length ≤ c.maxlen) (hrs : rs.immediate = true) :
     ∃ r, doneOf fut (crun c (pre ++ .response fut tx rs :: post)) = [r] ∧ r.parts = ownParts tx pre ∧
-      r.st.isFinal = true ∧ (r.fromReport = false → r.st = rs) := by
+      r.st.isFinal = true ∧ (r.fromReport = false → r.st = rs) ∧
+      (r.fromReport = true → ∃ p ∈ ownParts tx pre, p.st = r.st) := by
   rw [future_completion_exact c fut tx rs pre post hfresh hpre hpost hwin]
   cases hfind : (ownParts tx pre).find? (fun p => p.st.isFinal) with
   | some f =>
     have := List.find?_some hfind
-    exact ⟨_, rfl, rfl, by simpa using this, by simp⟩
+    exact ⟨_, rfl, rfl, by simpa using this, by simp, fun _ => ⟨f, List.mem_of_find?_eq_some hfind, rfl⟩⟩
   | none =>
     simp only [hrs, if_true]
-    refine ⟨_, rfl, rfl, ?_, by simp⟩
+    refine ⟨_, rfl, rfl, ?_, by simp, by simp⟩
     cases rs <;> first | rfl | cases hrs
+
+/-- End to end. A request whose exchange is complete on the provider (any history around it), delivered to a consumer
+    so that the parts of its transaction arrive in the order sent - the response at ANY position among them, any foreign
+    traffic in between: the future of the call completes exactly once, with a final state that the provider reported for
+    this transaction (by `states_legal` there is only one), and - unless the response itself was `Fail`/`Cnclld`/
+    `CnclldMan` - with all report parts of the transaction in order. -/
+theorem end_to_end (cap : Nat) (pre post : List Ev) (r : Req) (hl : r.outcome.legal = true)
+    (c : Cons) (fut : Nat) (rs : St) (cpre cpost : List CEv) :
+    let tx := (run (Prov.init cap) pre).1.counter + 1
+    let res := run (Prov.init cap) (pre ++ .recv r :: post)
+    NotPending res.1 tx → Fresh c fut tx →
+    (∀ e ∈ cpre, e.foreign fut tx = true) → (∀ e ∈ cpost, e.foreign fut tx = true) →
+    ((allParts cpre).dropWhile (other tx)).length ≤ c.maxlen →
+    (respsOf tx res.2).map (·.st) = [rs] →
+    (ownParts tx cpre ++ ownParts tx cpost).map (·.st) = (reportsOf tx res.2).map (·.st) →
+    ∃ result, doneOf fut (crun c (cpre ++ .response fut tx rs :: cpost)) = [result] ∧
+      result.st.isFinal = true ∧ result.st ∈ statesOf tx res.2 ∧
+      (rs.immediate = false → result.parts = ownParts tx cpre ++ ownParts tx cpost) := by
+  intro tx res hn hfresh hpre hpost hwin hrs hparts
+  have hex := complete_exchange r tx _ (status_not_pending _ _ _ _ (status_of_request cap pre post r) hn) hl
+  have hstates : statesOf tx res.2 = (msgsOf tx res.2).map (·.info.st) := rfl
+  have hresps : (respsOf tx res.2).map (·.st) = ((msgsOf tx res.2).filterMap Msg.resp?).map (·.st) := rfl
+  have hreps : (reportsOf tx res.2).map (·.st) = ((msgsOf tx res.2).filterMap Msg.report?).map (·.st) := rfl
+  rw [hstates]
+  rw [hresps] at hrs
+  rw [hreps] at hparts
+  generalize (msgsOf tx res.2).map (·.info.st) = w at hex
+  generalize ((msgsOf tx res.2).filterMap Msg.resp?).map (·.st) = wr at hex hrs
+  generalize ((msgsOf tx res.2).filterMap Msg.report?).map (·.st) = wp at hex hparts
+  -- the reports are `ws ++ [f]` (or absent), the response state is known
+  have key : ∀ (ws : List St) (f : St), wp = ws ++ [f] → (∀ s ∈ ws, s.isFinal = false) → f.isFinal = true → f ∈ w →
+      (rs.immediate = true → ws = []) →
+      ∃ result, doneOf fut (crun c (cpre ++ .response fut tx rs :: cpost)) = [result] ∧
+        result.st.isFinal = true ∧ result.st ∈ w ∧
+        (rs.immediate = false → result.parts = ownParts tx cpre ++ ownParts tx cpost) := by
+    intro ws f hwp hws hf hfw him
+    rw [hwp, List.map_eq_append_iff] at hparts
+    obtain ⟨ns, lf, hsplit, hns, hlf⟩ := hparts
+    obtain ⟨pf, hpf, hpfst⟩ : ∃ pf, lf = [pf] ∧ pf.st = f := by
+      cases lf with
+      | nil => simp at hlf
+      | cons a t =>
+        cases t with
+        | nil => simp at hlf; exact ⟨a, rfl, hlf⟩
+        | cons b t' => simp at hlf
+    subst hpf
+    have hns' : ∀ n ∈ ns, n.st.isFinal = false := by
+      intro n hn'
+      apply hws
+      rw [← hns]
+      exact List.mem_map_of_mem hn'
+    by_cases himm : rs.immediate = true
+    · obtain ⟨res', h1, h2, h3, h4, h5⟩ := future_completes_once_immediate c fut tx rs cpre cpost hfresh hpre hpost hwin himm
+      refine ⟨res', h1, h3, ?_, by intro h; rw [himm] at h; cases h⟩
+      have hws0 := him himm
+      subst hws0
+      have hns0 : ns = [] := by simpa using hns
+      subst hns0
+      cases hfr : res'.fromReport with
+      | false =>
+        -- completed by the response: its state is the provider's response state, which is the final state `f`
+        rw [h4 hfr]
+        cases hex with
+        | unknown => simp at hwp
+        | direct g hg =>
+          simp at hrs hwp
+          subst hrs; subst hwp; simp
+        | queued g hg => simp at hwp
+      | true =>
+        obtain ⟨p, hp, hpst⟩ := h5 hfr
+        have : p ∈ ownParts tx cpre ++ ownParts tx cpost := List.mem_append_left _ hp
+        rw [hsplit] at this
+        simp at this
+        subst this
+        rw [← hpst, hpfst]; exact hfw
+    · have himm' : rs.immediate = false := by simpa using himm
+      have := future_completes_once c fut tx rs cpre cpost ns pf hfresh hpre hpost hwin hsplit hns' (by rw [hpfst]; exact hf) himm'
+      refine ⟨_, this, by simp [hpfst, hf], by simp [hpfst, hfw], fun _ => by simp [hsplit]⟩
+  cases hex with
+  | unknown =>
+    -- no report at all: the `Fail` response completes the future
+    simp at hrs
+    subst hrs
+    have hnil : ownParts tx cpre ++ ownParts tx cpost = [] := by simpa using hparts
+    obtain ⟨res', h1, h2, h3, h4, h5⟩ := future_completes_once_immediate c fut tx .fail cpre cpost hfresh hpre hpost hwin rfl
+    refine ⟨res', h1, h3, ?_, by intro h; cases h⟩
+    cases hfr : res'.fromReport with
+    | false => rw [h4 hfr]; simp
+    | true =>
+      obtain ⟨p, hp, _⟩ := h5 hfr
+      have : p ∈ ownParts tx cpre ++ ownParts tx cpost := List.mem_append_left _ hp
+      rw [hnil] at this; cases this
+  | direct g hg =>
+    exact key [] g rfl (by simp) hg (by simp) (fun _ => rfl)
+  | queued g hg =>
+    simp at hrs
+    subst hrs
+    refine key [.wait, .start] g rfl ?_ hg (by simp) (by intro h; cases h)
+    intro s hs; simp at hs; rcases hs with h | h <;> subst h <;> rfl
 
 /-- a future the application dropped is never completed, and its transaction is forgotten at the final part -/
 theorem dropped_future_not_completed (c : Cons) (p : Part) (d : Pending) (hreg : c.trans p.tx = some d)
